@@ -86,6 +86,30 @@ let wprog_of entry m : wprog =
     | "bld" -> let (c, p) = bld_of m in final_write_with_net c p
     | _ -> failwith ("entry " ^ entry)
 
+(* the same writers in the language with explicit result handling (IoFault/Propagate.v):
+   each write_all(..)? spelled out; this is what the `w` cases run *)
+let xprog_of entry m : iokind xprog =
+  if List.mem entry single then x_single_write (bytes_of_hex m) else
+    match entry with
+    | "ip4h" | "ip4h_raw" -> x_ipv4_header_write (two_of m)
+    | "auth" -> x_ip_auth_header_write (two_of m)
+    | "rawext" -> x_ipv6_raw_ext_header_write (two_of m)
+    | "tcp" | "tr_tcp" -> x_tcp_header_write (two_of m)
+    | "x4" -> (match split ';' m with
+        | [start; a] -> x_x4_write_internal (slot_of a) (n_of_s start)
+        | _ -> failwith "x4")
+    | "x6" -> (match split ';' m with
+        | first :: slots -> x_x6_write_internal (x6_of slots) (n_of_s first)
+        | _ -> failwith "x6")
+    | "iph4" -> (match split ';' m with
+        | [h; proto; a] -> x_ip_headers_write_v4 (two_of h) (n_of_s proto) (slot_of a)
+        | _ -> failwith "iph4")
+    | "iph6" -> (match split ';' m with
+        | h :: nh :: slots -> x_ip_headers_write_v6 (bytes_of_hex h) (n_of_s nh) (x6_of slots)
+        | _ -> failwith "iph6")
+    | "bld" -> let (c, p) = bld_of m in x_final_write_with_net c p
+    | _ -> failwith ("entry " ^ entry)
+
 let s_kind = function KOther -> "other" | KWriteZero -> "wz" | KEof -> "eof"
 let s_cerr = function
   | CHopNotAtStart -> "hop" | CNotReferenced n -> "notref" ^ s_of_n n | CPayloadLen -> "plen"
@@ -141,7 +165,9 @@ let run (line : string) : string =
   | ["w"; entry; k; chunk; z; _spec; m] ->
     let p = wprog_of entry m in
     let sink = { fs_budget = n_of_s k; fs_chunk = n_of_s chunk; fs_zero = (z = "1"); fs_got = [] } in
-    let (r, s') = run_w io_write_all p sink in
+    let (r, s') = run_x io_write_all (xprog_of entry m) sink in
+    let (r0, s0) = run_w io_write_all p sink in
+    if (r0, s0) <> (r, s') then failwith "run_x of the explicit program differs from run_w (C16_crate_writers_propagate)";
     let enc = wprog_bytes p in
     let (sok, sgot) = spec_fault_write enc (n_of_s k) in
     Printf.sprintf "%s got=%s | %s got=%s" (s_wres r) (hex_of_bytes s'.fs_got)
